@@ -97,6 +97,8 @@ func c08(r *core.Run) {
 
 	root := p.FuncsOfPkg("")
 	c08ListenersWired(r, "O7", root)
+	r.Rule("O8", "an event that was applied is published: each event funnel (the functions handing their subject parameter to Conn.Publish) publishes, or hands the message to another funnel, on every path to its return - the only exit without a publish is the error edge of the payload's json.Marshal; a funnel that returns early on a state or configuration test makes apply and listeners run around a publish that never happens", 2)
+	c08FunnelAlwaysPublishes(r, "O8")
 	mp := mayPublish(p)
 	// helpers that (transitively) call listeners / apply handlers
 	mayNotify := mayExec(root, func(in ssa.Instruction) bool {
@@ -497,7 +499,7 @@ func c08(r *core.Run) {
 			r.Check(nEmptyRev > 0, "O3", fname, "tests-empty-revert-map", p.Pos(fn.Pos()), "an apply handler reporting 'nothing changed' (empty revert map) is detected", "an apply handler reporting that nothing changed is ignored: an event is published for a change that changes nothing")
 		}
 		// ---- O4 ----
-		c08Validity(r, m, res)
+		c08Validity(r, "O4", m)
 		// ---- O5 ----
 		c08EventFields(r, m)
 		// ---- O6 (per method) ----
@@ -622,7 +624,7 @@ func panicGuards(fn *ssa.Function) map[string]*ssa.If {
 	return out
 }
 
-func c08Validity(r *core.Run, m *evMethod, res *core.FlowResult) {
+func c08Validity(r *core.Run, rule string, m *evMethod) {
 	p := r.P
 	fn := m.fn
 	fname := core.FuncName(fn)
@@ -639,11 +641,11 @@ func c08Validity(r *core.Run, m *evMethod, res *core.FlowResult) {
 		iff, ok := guards[key]
 		switch {
 		case !ok:
-			r.Bad("O4", fname, "panics-on:"+what, p.Pos(fn.Pos()), "no panic guard for "+what+" ("+key+"): an invalid call would apply and publish")
+			r.Bad(rule, fname, "panics-on:"+what, p.Pos(fn.Pos()), "no panic guard for "+what+" ("+key+"): an invalid call would apply and publish")
 		case !domAll(iff):
-			r.Bad("O4", fname, "panics-on:"+what, p.InstrPos(iff), "the "+what+" check does not dominate the apply and the publish")
+			r.Bad(rule, fname, "panics-on:"+what, p.InstrPos(iff), "the "+what+" check does not dominate the apply and the publish")
 		default:
-			r.OK("O4", fname, "panics-on:"+what, p.InstrPos(iff), "guard "+key+" -> panic dominates apply and publish")
+			r.OK(rule, fname, "panics-on:"+what, p.InstrPos(iff), "guard "+key+" -> panic dominates apply and publish")
 		}
 	}
 	typeConst := func(name string) string {
@@ -673,20 +675,20 @@ func c08Validity(r *core.Run, m *evMethod, res *core.FlowResult) {
 			key := fmt.Sprintf("param:%s==%q", evParam, n)
 			if _, direct := guards[key]; !direct && tbl[n] && tblAt != nil {
 				if domAll(tblAt) {
-					r.OK("O4", fname, "panics-on:reserved-name("+n+")", p.InstrPos(tblAt), "the name is a key of the reserved-name table whose hit edge only panics, before apply and publish")
+					r.OK(rule, fname, "panics-on:reserved-name("+n+")", p.InstrPos(tblAt), "the name is a key of the reserved-name table whose hit edge only panics, before apply and publish")
 				} else {
-					r.Bad("O4", fname, "panics-on:reserved-name("+n+")", p.InstrPos(tblAt), "the reserved-name table lookup does not dominate the apply and the publish")
+					r.Bad(rule, fname, "panics-on:reserved-name("+n+")", p.InstrPos(tblAt), "the reserved-name table lookup does not dominate the apply and the publish")
 				}
 				continue
 			}
 			need(key, "reserved-name("+n+")")
 		}
 		if at, ok := panicsUnlessCall(fn, "isValidPart"); ok && domAll(at) {
-			r.OK("O4", fname, "panics-on:malformed-name", p.InstrPos(at), "a name rejected by the token validator panics before apply and publish")
+			r.OK(rule, fname, "panics-on:malformed-name", p.InstrPos(at), "a name rejected by the token validator panics before apply and publish")
 			// what "malformed" means: the validator's own rune facts (shared with C07.P2)
-			c07Validator(r, "O4", "", "isValidPart", true)
+			c07Validator(r, rule, "", "isValidPart", true)
 		} else {
-			r.Bad("O4", fname, "panics-on:malformed-name", p.Pos(fn.Pos()), "the custom event name is not validated by the token validator on a panicking edge that dominates the publish")
+			r.Bad(rule, fname, "panics-on:malformed-name", p.Pos(fn.Pos()), "the custom event name is not validated by the token validator on a panicking edge that dominates the publish")
 		}
 	}
 }
@@ -1004,4 +1006,106 @@ func unconditionalOrGuardedByListeners(st *ssa.Store) bool {
 		}
 	}
 	return n > 0
+}
+
+// c08CustomEventValidity: the validity guards of the custom event method alone
+// (C08.O4; shared with C07.P9): reserved and malformed names panic before the
+// publish.
+func c08CustomEventValidity(r *core.Run, rule string) {
+	p := r.P
+	mp := mayPublish(p)
+	for _, fn := range methodsOf(p, "", "resource") {
+		if fn.Name() != "Event" || fn.Object() == nil || !fn.Object().Exported() {
+			continue
+		}
+		m := &evMethod{fn: fn, stem: "", scope: []*ssa.Function{fn}}
+		for _, c := range core.Calls(fn) {
+			if cal := c.Common().StaticCallee(); cal != nil && !core.IsGo(c) && mp[cal] {
+				m.P = append(m.P, c)
+			}
+		}
+		if len(m.P) == 0 {
+			r.Bad(rule, core.FuncName(fn), "publishes", p.Pos(fn.Pos()), "the custom event method contains no call that reaches Conn.Publish")
+			return
+		}
+		c08Validity(r, rule, m)
+		return
+	}
+	r.Unres(rule, "resource.Event", "method missing")
+}
+
+// c08FunnelAlwaysPublishes: an event funnel (a function that hands its own
+// subject parameter to Conn.Publish) publishes on every path to its return,
+// or passes the message to another funnel; the only way out without a publish
+// is the error edge of the payload's json.Marshal. A funnel that returns early
+// for another reason drops the publish in the middle of apply - publish -
+// listeners: the listeners run for an event nobody was sent, and the reply that
+// follows appears on the connection without the events before it.
+func c08FunnelAlwaysPublishes(r *core.Run, rule string) {
+	p := r.P
+	root := p.FuncsOfPkg("")
+	replyF := replyFunnels(p)
+	funnels := map[*ssa.Function]bool{}
+	for _, c := range invokes(root, "Conn", "Publish") {
+		fn := c.Parent()
+		if replyF[fn] {
+			continue
+		}
+		if _, ok := core.Strip(c.Common().Args[0]).(*ssa.Parameter); ok {
+			funnels[fn] = true
+		}
+	}
+	if len(funnels) == 0 {
+		r.Unres(rule, "event-funnel", "no function hands its subject parameter to Conn.Publish")
+		return
+	}
+	var fs []*ssa.Function
+	for fn := range funnels {
+		fs = append(fs, fn)
+	}
+	sort.Slice(fs, func(i, j int) bool { return core.FuncName(fs[i]) < core.FuncName(fs[j]) })
+	for _, fn := range fs {
+		fl := &core.Flow{Fn: fn, Entry: core.StateSet(0).Add(0), Inline: func(cal *ssa.Function) bool { return p.IsPrivateHelper(cal) && !funnels[cal] }}
+		fl.Transfer = func(in ssa.Instruction, st int) core.StateSet {
+			if c, ok := in.(ssa.CallInstruction); ok && !core.IsGo(c) && !core.IsDefer(c) {
+				if c.Common().IsInvoke() && c.Common().Method.Name() == "Publish" {
+					return core.StateSet(0).Add(1)
+				}
+				if cal := c.Common().StaticCallee(); cal != nil && funnels[cal] {
+					return core.StateSet(0).Add(1)
+				}
+			}
+			return core.StateSet(0).Add(st)
+		}
+		fl.BranchOn = func(cond ssa.Value, succ int, st int) (int, bool) {
+			ci := core.Cond(cond)
+			if ci.Kind == "nilcmp" && st == 0 {
+				if ex, ok := ci.X.(*ssa.Extract); ok {
+					if mc, ok := ex.Tuple.(*ssa.Call); ok && core.CalleeName(mc) == "encoding/json.Marshal" {
+						truth := succ == 0
+						if ci.Negate {
+							truth = !truth
+						}
+						if (ci.Op == token.NEQ) == truth {
+							return 2, true // the payload could not be encoded: nothing to publish
+						}
+					}
+				}
+			}
+			return st, true
+		}
+		fl.Branch = func(iff *ssa.If, succ int, st int) (int, bool) { return fl.BranchOn(iff.Cond, succ, st) }
+		res := fl.Run()
+		for _, ret := range core.Returns(fn) {
+			if fn.Recover != nil && ret.Block() == fn.Recover {
+				continue
+			}
+			st := res.Before[ret]
+			var conds []string
+			for _, e := range dominatingEdges(ret) {
+				conds = append(conds, describeCond(e))
+			}
+			r.Check(!st.Has(0), rule, core.FuncName(fn), "return-after-publish:"+returnDesc(ret, conds), p.InstrPos(ret), "every path to this return published (or could not encode the payload)", "the event funnel can return without publishing ("+strings.Join(conds, " && ")+"): the event is dropped between the apply handler and the listeners, which still run, and later messages of the same callback appear without it")
+		}
+	}
 }
